@@ -9,7 +9,9 @@ import (
 	"fmt"
 	"io"
 	"math/rand"
+	"os"
 	"testing"
+	"time"
 
 	"github.com/klauspost/compress/zstd"
 	"github.com/restic/restic/internal/backend"
@@ -394,6 +396,7 @@ func TestVerif_C43(t *testing.T) {
 	key := repo.key
 	enc, dec := repo.getZstdEncoder(), repo.getZstdDecoder()
 	r := kit.Rand(43)
+	start := time.Now()
 	emit := func(rec c43Rec, sig string, nontrivial bool) {
 		res.Case(sig, nontrivial)
 		kind := rec.Fault
@@ -423,6 +426,10 @@ func TestVerif_C43(t *testing.T) {
 		"huge-single-130units": {{size: 100}, {size: 130 * c43Unit}, {size: 100}},
 	}
 	names := []string{"gap-over-1MiB", "hole-exactly-1MiB", "adjacent-small", "single", "two-16MiB-make-32MiB", "just-under-32MiB", "huge-single-130units"}
+	part := os.Getenv("VERIF_C43_PART") // development aid: "repo" skips the direct scenarios
+	if part == "repo" {
+		names, fixed = nil, nil
+	}
 	for li, nm := range names {
 		l := c43Build(nm, key, enc, fixed[nm], uint64(kit.Seed())*100+uint64(li))
 		big := len(l.image) > 8*c43MiB
@@ -437,6 +444,10 @@ func TestVerif_C43(t *testing.T) {
 	}
 	// random layouts
 	nl := kit.Pick(14, 160)
+	nbig := kit.Pick(2, 14)
+	if part == "repo" {
+		nl, nbig = 0, 0
+	}
 	for i := 0; i < nl; i++ {
 		l := c43Build(fmt.Sprintf("random%d", i), key, enc, c43RandomSpecs(r, false), r.Uint64())
 		for _, sc := range c43Scenarios(r, l, kit.Pick(40, 90)) {
@@ -444,7 +455,6 @@ func TestVerif_C43(t *testing.T) {
 			emit(rec, c43Sig(rec, sc), len(sc.subset) > 1 || sc.fault != "none")
 		}
 	}
-	nbig := kit.Pick(2, 14)
 	for i := 0; i < nbig; i++ {
 		l := c43Build(fmt.Sprintf("randombig%d", i), key, enc, c43RandomSpecs(r, true), r.Uint64())
 		for _, sc := range c43Scenarios(r, l, kit.Pick(5, 24)) {
@@ -452,6 +462,9 @@ func TestVerif_C43(t *testing.T) {
 			emit(rec, c43Sig(rec, sc), len(sc.subset) > 1 || sc.fault != "none")
 		}
 	}
+	res.Count("wall_ms_direct", int(time.Since(start).Milliseconds()))
+	start = time.Now()
 	c43Repo(t, res, emit, r)
+	res.Count("wall_ms_repo", int(time.Since(start).Milliseconds()))
 	res.Save("")
 }
